@@ -10,7 +10,9 @@ Definition dirent (p : Z * (Z * section)) : Z * (Z * Z) := (fst p, (fst (snd (sn
 
 Definition modelled_types : list Z :=
   [ST_SystemInfoStream; ST_ThreadListStream; ST_ModuleListStream; ST_MemoryListStream; ST_Memory64ListStream;
-   ST_ExceptionStream; ST_ThreadNamesStream; ST_UnloadedModuleListStream; ST_MemoryInfoListStream; ST_MiscInfoStream].
+   ST_ExceptionStream; ST_ThreadNamesStream; ST_UnloadedModuleListStream; ST_MemoryInfoListStream; ST_MiscInfoStream;
+   ST_BreakpadInfoStream; ST_AssertionInfoStream; ST_ThreadInfoListStream; ST_LinuxCpuInfo; ST_LinuxProcStatus;
+   ST_LinuxLsbRelease; ST_LinuxEnviron; ST_LinuxMaps; ST_MozLinuxLimits].
 Definition zmem (x : Z) (l : list Z) : bool := existsb (Z.eqb x) l.
 Definition present_types (e : endian) (m : model) : list Z := map fst (filter present (table e m)).
 Definition u32_entry (d : Z * (Z * Z)) : bool := u32b (fst d) && u32b (fst (snd d)) && u32b (snd (snd d)).
@@ -31,6 +33,9 @@ Definition wf_model (e : endian) (m : model) : bool :=
   && oall (forallb wf_unloaded) (m_unloaded m)
   && oall (forallb wf_meminfo) (m_meminfo m)
   && oall wf_misc (m_misc m)
+  && oall (wf_flat L_MINIDUMP_BREAKPAD_INFO) (m_breakpad m)
+  && oall (wf_flat L_MINIDUMP_ASSERTION_INFO) (m_assertion m)
+  && oall (forallb (wf_flat L_MINIDUMP_THREAD_INFO)) (m_thread_info m)
   && (zlen (encode_dump e m) <=? U32M).
 
 (* ------------------------------------------------------------------ directory *)
@@ -160,7 +165,9 @@ Proof.
   unfold modelled_types.
   repeat (constructor; [cbn [In]; unfold ST_SystemInfoStream, ST_ThreadListStream, ST_ModuleListStream, ST_MemoryListStream,
                         ST_Memory64ListStream, ST_ExceptionStream, ST_ThreadNamesStream, ST_UnloadedModuleListStream,
-                        ST_MemoryInfoListStream, ST_MiscInfoStream; intuition lia|]).
+                        ST_MemoryInfoListStream, ST_MiscInfoStream, ST_BreakpadInfoStream, ST_AssertionInfoStream,
+                        ST_ThreadInfoListStream, ST_LinuxCpuInfo, ST_LinuxProcStatus, ST_LinuxLsbRelease, ST_LinuxEnviron,
+                        ST_LinuxMaps, ST_MozLinuxLimits; intuition lia|]).
   constructor.
 Qed.
 
@@ -201,8 +208,8 @@ Proof. unfold Hd. rewrite enc_zlen_shape by reflexivity. reflexivity. Qed.
 
 Lemma zlen_dir_ndir : zlen dir = ndir.
 Proof.
-  unfold dir, ndir. rewrite zlen_app. f_equal. unfold zlen at 1. rewrite map_length. fold (zlen placed).
-  unfold placed. apply place_length.
+  unfold dir, ndir. rewrite zlen_app. f_equal.
+  rewrite <- (place_length t off0). unfold zlen. rewrite map_length. reflexivity.
 Qed.
 
 Lemma zlen_Dr : zlen Dr = 12 * ndir.
@@ -253,13 +260,16 @@ Ltac sane_case :=
       repeat match goal with Hx : oall _ ?o' = true |- _ => match o' with o => rewrite E in Hx; cbn [oall] in Hx end end
   end.
 
+Lemma thread_info_size : 1 <= lsize L_MINIDUMP_THREAD_INFO < 4294967296.
+Proof. let v := eval vm_compute in (lsize L_MINIDUMP_THREAD_INFO) in change (lsize L_MINIDUMP_THREAD_INFO) with v. lia. Qed.
+
 Lemma table_sane : forall ty b, In (ty, Some b) t ->
   forall pre post, 0 < zlen pre -> zlen pre + zlen (snd (b (zlen pre))) <= U32M ->
   0 <= fst (b (zlen pre)) <= zlen (snd (b (zlen pre))) /\ (pre ++ snd (b (zlen pre)) ++ post = pre ++ snd (b (zlen pre)) ++ post).
 Proof.
   intros ty b Hin pre post Hpre Hb. split; [|reflexivity].
   unfold t, table in Hin. cbn [In] in Hin.
-  destruct Hin as [Heq|[Heq|[Heq|[Heq|[Heq|[Heq|[Heq|[Heq|[Heq|[Heq|[]]]]]]]]]]]; sane_case.
+  destruct Hin as [Heq|[Heq|[Heq|[Heq|[Heq|[Heq|[Heq|[Heq|[Heq|[Heq|[Heq|[Heq|[Heq|[Heq|[Heq|[Heq|[Heq|[Heq|[Heq|[]]]]]]]]]]]]]]]]]]]]; sane_case.
   - apply (sysinfo_roundtrip e a pre post); assumption.
   - apply (list_roundtrip thread_codec e wf_thread (thread_ok e) (m_pad_lists m) a pre post); assumption.
   - apply (list_roundtrip module_codec e (wf_module e) (module_ok e) (m_pad_lists m) a pre post); assumption.
@@ -270,6 +280,15 @@ Proof.
   - apply (exlist_roundtrip unloaded_codec e wf_unloaded (unloaded_ok e) false UNLOADED_HDR 4 (or_intror (conj eq_refl (conj eq_refl eq_refl))) a pre post); assumption.
   - apply (exlist_roundtrip meminfo_codec e wf_meminfo (meminfo_ok e) true MEMINFO_HDR 8 (or_introl (conj eq_refl (conj eq_refl eq_refl))) a pre post); assumption.
   - apply (misc_roundtrip e a pre post); assumption.
+  - apply (flat_roundtrip L_MINIDUMP_BREAKPAD_INFO e a pre post); assumption.
+  - apply (flat_roundtrip L_MINIDUMP_ASSERTION_INFO e a pre post); assumption.
+  - apply (exlist_roundtrip (flat_codec L_MINIDUMP_THREAD_INFO) e (wf_flat L_MINIDUMP_THREAD_INFO) (flat_codec_ok _ e thread_info_size) false THREADINFO_HDR 4 (or_intror (conj eq_refl (conj eq_refl eq_refl))) a pre post); assumption.
+  - apply (raw_roundtrip e a pre post); [reflexivity|assumption..].
+  - apply (raw_roundtrip e a pre post); [reflexivity|assumption..].
+  - apply (raw_roundtrip e a pre post); [reflexivity|assumption..].
+  - apply (raw_roundtrip e a pre post); [reflexivity|assumption..].
+  - apply (raw_roundtrip e a pre post); [reflexivity|assumption..].
+  - apply (raw_roundtrip e a pre post); [reflexivity|assumption..].
 Qed.
 
 Lemma dir_u32 : forallb u32_entry dir = true.
@@ -369,6 +388,33 @@ Ltac wf_piece Hwf E :=
 Ltac in_table E := unfold table, ob; rewrite E; cbn [In]; repeat (first [left; reflexivity | right]).
 Ltac in_table_none E := unfold table, ob; rewrite E; cbn [In]; repeat (first [left; reflexivity | right]).
 
+Lemma dview_ext : forall a b : dview,
+  v_endian a = v_endian b ->
+  v_version a = v_version b ->
+  v_checksum a = v_checksum b ->
+  v_time a = v_time b ->
+  v_flags a = v_flags b ->
+  v_sysinfo a = v_sysinfo b ->
+  v_threads a = v_threads b ->
+  v_modules a = v_modules b ->
+  v_memory a = v_memory b ->
+  v_memory64 a = v_memory64 b ->
+  v_exception a = v_exception b ->
+  v_tnames a = v_tnames b ->
+  v_unloaded a = v_unloaded b ->
+  v_meminfo a = v_meminfo b ->
+  v_misc a = v_misc b ->
+  v_breakpad a = v_breakpad b ->
+  v_assertion a = v_assertion b ->
+  v_thread_info a = v_thread_info b ->
+  v_lx_cpuinfo a = v_lx_cpuinfo b ->
+  v_lx_status a = v_lx_status b ->
+  v_lx_lsb a = v_lx_lsb b ->
+  v_lx_environ a = v_lx_environ b ->
+  v_lx_maps a = v_lx_maps b ->
+  v_lx_limits a = v_lx_limits b -> a = b.
+Proof. intros [] []; cbn; intros; subst; reflexivity. Qed.
+
 Theorem dump_roundtrip : forall e m, wf_model e m = true ->
   decode_dump (encode_dump e m) = Some (view_of e m).
 Proof.
@@ -382,7 +428,8 @@ Proof.
   2:{ symmetry. apply Z.leb_le. rewrite zlen_app. rewrite Hh.
       match goal with |- _ <= 32 + zlen ?x => pose proof (zlen_nonneg _ x) end.
       assert (HEADER_SIZE = 32) by reflexivity. lia. }
-  rewrite (dir_ok e m Hwf). cbn [obnd]. unfold view_of. f_equal. f_equal.
+  rewrite (dir_ok e m Hwf). cbn [obnd]. unfold view_of. apply f_equal. apply dview_ext;
+    cbn [v_endian v_version v_checksum v_time v_flags v_sysinfo v_threads v_modules v_memory v_memory64 v_exception v_tnames v_unloaded v_meminfo v_misc v_breakpad v_assertion v_thread_info v_lx_cpuinfo v_lx_status v_lx_lsb v_lx_environ v_lx_maps v_lx_limits]; try reflexivity.
   - destruct (m_sysinfo m) as [a|] eqn:E; cbn [sres_of].
     + apply (stream_present e m Hwf _ (enc_sysinfo e) dec_sysinfo wf_sysinfo a); [apply sysinfo_roundtrip|wf_piece Hwf E|in_table E].
     + apply (stream_absent e m Hwf). in_table_none E.
@@ -420,5 +467,37 @@ Proof.
     + apply (stream_absent e m Hwf). in_table_none E.
   - destruct (m_misc m) as [a|] eqn:E; cbn [sres_of].
     + apply (stream_present e m Hwf _ (enc_misc e) dec_misc wf_misc a); [apply misc_roundtrip|wf_piece Hwf E|in_table E].
+    + apply (stream_absent e m Hwf). in_table_none E.
+  - destruct (m_breakpad m) as [a|] eqn:E; cbn [sres_of].
+    + apply (stream_present e m Hwf _ (enc_flat L_MINIDUMP_BREAKPAD_INFO e) (dec_flat L_MINIDUMP_BREAKPAD_INFO) (wf_flat L_MINIDUMP_BREAKPAD_INFO) a);
+        [apply flat_roundtrip|wf_piece Hwf E|in_table E].
+    + apply (stream_absent e m Hwf). in_table_none E.
+  - destruct (m_assertion m) as [a|] eqn:E; cbn [sres_of].
+    + apply (stream_present e m Hwf _ (enc_flat L_MINIDUMP_ASSERTION_INFO e) (dec_flat L_MINIDUMP_ASSERTION_INFO) (wf_flat L_MINIDUMP_ASSERTION_INFO) a);
+        [apply flat_roundtrip|wf_piece Hwf E|in_table E].
+    + apply (stream_absent e m Hwf). in_table_none E.
+  - destruct (m_thread_info m) as [a|] eqn:E; cbn [sres_of].
+    + apply (stream_present e m Hwf _ (enc_exlist (flat_codec L_MINIDUMP_THREAD_INFO) e THREADINFO_HDR 4)
+               (fun e => dec_exlist (flat_codec L_MINIDUMP_THREAD_INFO) e false) (forallb (wf_flat L_MINIDUMP_THREAD_INFO)) a);
+        [apply (exlist_roundtrip (flat_codec L_MINIDUMP_THREAD_INFO) e (wf_flat L_MINIDUMP_THREAD_INFO) (flat_codec_ok _ e (thread_info_size e m)) false THREADINFO_HDR 4); right; repeat split
+        |wf_piece Hwf E|in_table E].
+    + apply (stream_absent e m Hwf). in_table_none E.
+  - destruct (m_lx_cpuinfo m) as [a|] eqn:E; cbn [sres_of].
+    + apply (stream_present e m Hwf _ (enc_raw e) dec_raw (fun _ => true) a); [apply raw_roundtrip|reflexivity|in_table E].
+    + apply (stream_absent e m Hwf). in_table_none E.
+  - destruct (m_lx_status m) as [a|] eqn:E; cbn [sres_of].
+    + apply (stream_present e m Hwf _ (enc_raw e) dec_raw (fun _ => true) a); [apply raw_roundtrip|reflexivity|in_table E].
+    + apply (stream_absent e m Hwf). in_table_none E.
+  - destruct (m_lx_lsb m) as [a|] eqn:E; cbn [sres_of].
+    + apply (stream_present e m Hwf _ (enc_raw e) dec_raw (fun _ => true) a); [apply raw_roundtrip|reflexivity|in_table E].
+    + apply (stream_absent e m Hwf). in_table_none E.
+  - destruct (m_lx_environ m) as [a|] eqn:E; cbn [sres_of].
+    + apply (stream_present e m Hwf _ (enc_raw e) dec_raw (fun _ => true) a); [apply raw_roundtrip|reflexivity|in_table E].
+    + apply (stream_absent e m Hwf). in_table_none E.
+  - destruct (m_lx_maps m) as [a|] eqn:E; cbn [sres_of].
+    + apply (stream_present e m Hwf _ (enc_raw e) dec_raw (fun _ => true) a); [apply raw_roundtrip|reflexivity|in_table E].
+    + apply (stream_absent e m Hwf). in_table_none E.
+  - destruct (m_lx_limits m) as [a|] eqn:E; cbn [sres_of].
+    + apply (stream_present e m Hwf _ (enc_raw e) dec_raw (fun _ => true) a); [apply raw_roundtrip|reflexivity|in_table E].
     + apply (stream_absent e m Hwf). in_table_none E.
 Qed.
